@@ -7,7 +7,7 @@ use std::rc::Rc;
 
 use serde::{Deserialize, Serialize};
 
-use crate::cfg::{AvailableValueMap, MathOp};
+use crate::cfg::{AvailableValueMap, MathOp, RegisterSet};
 use crate::parser::{
     CsrImm, HasRegisterSets, InstructionProperties, LabelString, LabelStringToken, LoadType,
     RegisterProperties, StoreType,
@@ -160,6 +160,17 @@ impl GenerationPass for AvailableValuePass {
                 if node.calls_to().is_some() {
                     out_reg_n -= Register::return_addr_set().iter();
                 }
+                // The environment writes its results into registers: the
+                // documented ones for a known call, a0/a1 otherwise.
+                let ecall_results = if node.is_ecall() {
+                    match node.known_ecall_signature() {
+                        Some((_, results)) => results,
+                        None => Register::program_args_set(),
+                    }
+                } else {
+                    RegisterSet::new()
+                };
+                out_reg_n -= ecall_results.iter();
                 if let Some((reg, reg_value)) = node.gen_reg_value() {
                     out_reg_n.insert(reg, reg_value);
                 }
@@ -248,7 +259,7 @@ impl GenerationPass for AvailableValuePass {
                 // A value recorded as "register + i" describes the register as it
                 // was when the value was recorded. Once this node redefines the
                 // register, the value can no longer be resolved against it.
-                let mut redefined = node.kill_reg();
+                let mut redefined = node.kill_reg() | ecall_results;
                 if node.calls_to().is_some() {
                     redefined |= Register::return_addr_set();
                 }
